@@ -2,8 +2,9 @@
 
 Every thread that runs code of supp/remote.py is owned by the scheduler: a `line` trace event in that file is a
 yield point; supp.remote.Thread / Lock are replaced by scheduler-aware fakes (a thread blocked on the lock or in
-join is simply not enabled); Environment._run (Popen + Client) is replaced by a counting fake whose connection
-answers requests in FIFO order like the real server does.  A schedule is the list of choices made at the points
+join is simply not enabled); Environment._run runs for real under the scheduler, only subprocess.Popen (a counting
+fake that can fail once) and multiprocessing.connection.Client (a connection that answers requests in FIFO order like
+the real server does) are replaced.  A schedule is the list of choices made at the points
 where more than one thread is enabled; run() replays a prefix and then continues without preemption.
 """
 import collections
@@ -185,12 +186,29 @@ def install(sched, remote_module, fail_first_launch=False):
 
     env = R.Environment()
     env.prepare_lock = FLock('prepare_lock')
-    for attr in dir(env):
-        pass
 
     state = {'fail': bool(fail_first_launch)}
 
-    def fake_run():
+    # Environment._run itself runs under the scheduler; only what it reaches outside supp/remote.py is faked:
+    # subprocess.Popen (counts launches, may fail once) and multiprocessing.connection.Client (the FIFO connection)
+    import subprocess
+    import multiprocessing.connection as mpc
+
+    class FProc(object):
+        pid = 0
+
+        def poll(self_):
+            return None
+
+        def wait(self_, timeout=None):
+            return 0
+
+        def kill(self_):
+            pass
+
+        terminate = kill
+
+    def fake_popen(*a, **k):
         if state['fail']:
             state['fail'] = False
             sched.failed_launches = getattr(sched, 'failed_launches', 0) + 1
@@ -198,17 +216,21 @@ def install(sched, remote_module, fail_first_launch=False):
             raise OSError('injected launch failure')
         sched.launches += 1
         sched.max_live = max(sched.max_live, sched.launches - sched.closes)
-        env.proc = object()
-        env.conn = FConn()
-    env._run = fake_run
-    old = (R.Thread, R.Lock)
+        return FProc()
+
+    def fake_client(address, *a, **k):
+        return FConn()
+
+    old = (R.Thread, R.Lock, subprocess.Popen, mpc.Client)
     R.Thread = FThread
     R.Lock = FLock
+    subprocess.Popen = fake_popen
+    mpc.Client = fake_client
     # locks the Environment may create besides prepare_lock (e.g. a call lock) become scheduler-aware too
     for name, val in list(vars(env).items()):
         if name != 'prepare_lock' and type(val).__name__ in ('lock', 'RLock') or (name.endswith('_lock') and name != 'prepare_lock'):
             setattr(env, name, FLock(name))
 
     def restore():
-        R.Thread, R.Lock = old
+        R.Thread, R.Lock, subprocess.Popen, mpc.Client = old
     return env, restore
